@@ -76,6 +76,15 @@ class Prop(BaseProp):
                 return Verdict('spec', case, 'failed validation with a normalized expression or without a message', impl=[iv, pv], tags=tags)
             if unknown and list(info.invalid_symbols) != unknown:
                 return Verdict('spec', case, 'invalid symbols are not the unknown keys', impl=[iv, unknown], tags=tags)
+        # validate() takes its strictness from `strict` and nothing else: handing it a parse option gives the same report
+        for extra in ({'validate': True}, {'validate': False}):
+            try:
+                i2 = lic.validate(text, strict=strict, **extra)
+                iv2 = [T('info'), i2.normalized_expression if i2.normalized_expression is not None else T('none'), len(i2.errors), list(i2.invalid_symbols)]
+            except BaseException as e:  # noqa
+                iv2 = 'raised ' + type(e).__name__
+            if iv2 != iv:
+                return Verdict('spec', dict(case, options=extra), 'validate(text, strict, **options) reports something else than validate(text, strict)', impl=iv2, model=iv, tags=tags)
         mp, mv = drv.call_many([(T('parse'), table, False, strict, True, text), (T('validate'), table, strict, text)])
         mp = impl.model_outcome_c(mp)
 
